@@ -15,7 +15,7 @@
 From Coq Require Import List ZArith Bool.
 From VLib Require Import Codec Machine.
 From VModel Require Import ServerStop.
-From VProof Require Import ServerStop_proofs.
+From VProof Require Import ServerStop_proofs ServerStopBridge_proofs ServerStopSim_proofs.
 Import ListNotations.
 Open Scope Z_scope.
 
@@ -41,6 +41,14 @@ Theorem C25_holds_on_every_model_trace : forall c ops obs,
 Proof. exact sem_trace_holds. Qed.
 Print Assumptions C25_holds_on_every_model_trace.
 
+(* ... and clauses 4-9 (GracefulStop waits, handler's status, no accept after, Stop cancels,
+   status reaches the client before GracefulStop returns, WaitForHandlers) hold on every
+   trace of the sequential server model, for every configuration and every op list *)
+Theorem C25_holds_on_every_server_model_trace : forall wk w ops obs,
+  run [2; wk; w] ops = Some obs -> holds_b [2; wk; w] ops obs = true.
+Proof. exact srv_trace_holds. Qed.
+Print Assumptions C25_holds_on_every_server_model_trace.
+
 (* "GracefulStop returns only after every in-flight handler has returned" *)
 Theorem C25_graceful_waits : forall s, greach s -> In (P4 true) (stops s) ->
   cn s = CClosed /\ no_running (rs s).
@@ -50,10 +58,10 @@ Print Assumptions C25_graceful_waits.
 (* "every RPC accepted ... completes with the handler's status": when a GracefulStop has
    returned and no Stop closed the transport, every RPC whose handler was started has
    returned a status, exactly that status reached the client, and its context was never
-   cancelled by the server.  (Covers RPCs accepted before the call and those accepted in the
+   cancelled - unless its own client cancelled it (CCancelled).  (Covers RPCs accepted before the call and those accepted in the
    window before the second GOAWAY.) *)
 Theorem C25_accepted_complete_with_handler_status : forall s, greach s -> hardc s = false ->
-  In (P4 true) (stops s) -> forall r, In r (rs s) -> hs r <> HNone ->
+  In (P4 true) (stops s) -> forall r, In r (rs s) -> hs r <> HNone -> clst r <> CCancelled ->
   exists st, hs r = HRet st /\ clst r = CHandler st /\ cxl r = false.
 Proof. exact accepted_complete. Qed.
 Print Assumptions C25_accepted_complete_with_handler_status.
@@ -85,6 +93,26 @@ Theorem C25_stop_waits_for_handlers : forall s, greach s -> wfhd s = true ->
   In (P4 false) (stops s) -> no_running (rs s).
 Proof. exact stop_waits_for_handlers. Qed.
 Print Assumptions C25_stop_waits_for_handlers.
+
+(* LINK between the model the driver is compared with (Part C, executable, quiescent points)
+   and the model the theorems above are about (Part D, atomic steps): every Part C operation
+   (primitive + settle) is a sequence of Part D steps through the abstraction [abs]; hence
+   the state after ANY script is reachable in Part D, for some list of returned stop calls. *)
+Theorem C25_script_states_reachable : forall w ops,
+  exists dn, greach (abs (srv_state (srv_init w) ops) dn) /\ MInv (srv_state (srv_init w) ops).
+Proof. exact sim_run. Qed.
+Print Assumptions C25_script_states_reachable.
+
+(* ... so the Part D theorems speak about the driver's traces.  Example, read back in Part C
+   terms: after any script, if the connection closed without a Stop, every accepted RPC that
+   its client did not cancel has returned, its client holds exactly that status, and its
+   stream was never torn down *)
+Theorem C25_script_accepted_complete : forall w ops r,
+  let s := srv_state (srv_init w) ops in
+  In r (rpcs s) -> closed s = true -> hard s = false -> accepted r = true -> clst_of r <> CCancelled ->
+  hs_of r = HRet (r_code r) /\ clst_of r = CHandler (r_code r) /\ r_dead r = false.
+Proof. exact script_accepted_complete. Qed.
+Print Assumptions C25_script_accepted_complete.
 
 (* non-vacuity: N = 1: second acquire blocks, a release hands the unit over, and the
    acceptor rejects two holders with N = 1 *)
